@@ -2930,13 +2930,21 @@ class quantized_po2(base_quantizer.BaseQuantizer):  # pylint: disable=invalid-na
 
   def __str__(self):
     flags = [str(self.bits)]
-    if self.max_value is not None or self.use_stochastic_rounding:
-      flags.append(str(int(self.max_value)))
+    if self.max_value is not None:
+      flags.append(str(self.max_value))
     if self.use_stochastic_rounding:
-      flags.append(str(int(self.use_stochastic_rounding)))
+      flags.append("use_stochastic_rounding=" +
+                   str(int(self.use_stochastic_rounding)))
     if self.quadratic_approximation:
       flags.append(
           "quadratic_approximation=" + str(int(self.quadratic_approximation)))
+    if self.log2_rounding != "rnd":
+      flags.append("log2_rounding='" + self.log2_rounding + "'")
+    qnoise_factor = (
+        self.qnoise_factor.numpy() if isinstance(
+            self.qnoise_factor, tf.Variable) else self.qnoise_factor)
+    if qnoise_factor != 1.0:
+      flags.append("qnoise_factor=" + str(float(qnoise_factor)))
     return "quantized_po2(" + ",".join(flags) + ")"
 
   def __call__(self, x):
@@ -3078,15 +3086,23 @@ class quantized_relu_po2(base_quantizer.BaseQuantizer):  # pylint: disable=inval
 
   def __str__(self):
     flags = [str(self.bits)]
-    if self.max_value is not None or self.use_stochastic_rounding:
-      flags.append(str(int(self.max_value)))
+    if self.max_value is not None:
+      flags.append(str(self.max_value))
     if self.negative_slope:
-      flags.append(str(self.negative_slope))
+      flags.append("negative_slope=" + str(self.negative_slope))
     if self.use_stochastic_rounding:
-      flags.append(str(int(self.use_stochastic_rounding)))
+      flags.append("use_stochastic_rounding=" +
+                   str(int(self.use_stochastic_rounding)))
     if self.quadratic_approximation:
       flags.append(
           "quadratic_approximation=" + str(int(self.quadratic_approximation)))
+    if self.log2_rounding != "rnd":
+      flags.append("log2_rounding='" + self.log2_rounding + "'")
+    qnoise_factor = (
+        self.qnoise_factor.numpy() if isinstance(
+            self.qnoise_factor, tf.Variable) else self.qnoise_factor)
+    if qnoise_factor != 1.0:
+      flags.append("qnoise_factor=" + str(float(qnoise_factor)))
     return "quantized_relu_po2(" + ",".join(flags) + ")"
 
   def __call__(self, x):
